@@ -20,7 +20,7 @@ macro_rules! h {
         #[kani::stub(muxide::invariant_ppt::__assert_invariant_impl, crate::stubs::assert_invariant_stub)]
         pub fn $name() {
             $body;
-            kani::cover!(true, "harness end reached");
+            crate::vcover!(true, "harness end reached");
         }
     };
 }
